@@ -22,9 +22,15 @@ impl LexerError {
         match &self.kind {
             LexerErrorType::MatchingError(report_data) => {
                 let line = report_data.line;
+                // `input` may not be the source the error was raised in (several sources can
+                // be compiled together), so the recorded offsets cannot be trusted to fit
+                let mut context_start = report_data.context_start_offset.min(input.len());
+                while !input.is_char_boundary(context_start) {
+                    context_start -= 1;
+                }
                 let context = until_next_unindented(
-                    &input[report_data.context_start_offset..],
-                    report_data.offset - report_data.context_start_offset + 1,
+                    &input[context_start..],
+                    report_data.offset.saturating_sub(context_start) + 1,
                     300,
                 );
                 let pdu_lines = context.match_indices('\n').count();
